@@ -175,6 +175,41 @@ pub fn run(rng: &mut Rng, n: usize, out: &mut Out, which: &str) {
                     out.nontrivial(&format!("{}@{}", board_text(&b), pt));
                 }
             }
+            // ------------------------------------------------------------------ C15 at the level of the search: deepest wins
+            // several searches on ONE searcher, deeper first and shallower later, on the same position and on its successors:
+            // the record kept for each of these positions must never become shallower (depths observed before and after
+            // every search, judged by the spec column), and the table digest ties the model to the code.
+            "c15s" => {
+                let b = pick_search_position(&g, &mut st, rng, out, 300);
+                let ms = g.mg.generate_moves(&b);
+                let mut watch: Vec<Board> = vec![b];
+                for m in ms.iter().take(6) { watch.push(b.clone_with_move(m)); }
+                let mut plan: Vec<(Board, u8)> = Vec::new();
+                let dmax = 2 + rng.below(2) as u8;
+                plan.push((b, dmax));
+                for _ in 0..(2 + rng.below(3)) {
+                    let p = *rng.pick(&watch);
+                    plan.push((p, 1 + rng.below(dmax as u64) as u8));
+                }
+                plan.push((b, 1));
+                for (p, d) in plan {
+                    if qsize(&mut st, &p, 3000).is_none() { out.count("skipped_explosive_quiescence"); continue; }
+                    let before: Vec<String> = watch.iter().map(|w| out.run(&mut st, &format!("s.ttdepth {}", board_text(w)))).collect();
+                    let lim = if rng.chance(1, 5) { format!("nodes:{}", 1 + rng.below(300)) } else { "none".to_string() };
+                    let op = format!("s.go {} {} {}", board_text(&p), d, lim);
+                    let a = out.run(&mut st, &op);
+                    out.count(&format!("c15s_go_depth_{}", d));
+                    for (w, bf) in watch.iter().zip(before.iter()) {
+                        let af = out.run(&mut st, &format!("s.ttdepth {}", board_text(w)));
+                        let j = format!("s.judge {} depthmono {} {}", board_text(w), bf, af);
+                        let ja = out.run(&mut st, &j);
+                        if bf != "none" { out.count("records_watched_across_a_search"); if bf.parse::<u32>().ok() > Some(d as u32) { out.count("deeper_record_present_before_shallower_search"); } }
+                        if case <= 2 && bf != "none" && board_text(w) == board_text(&b) { out.sample(format!("{} ; {} => {}", op.chars().take(90).collect::<String>(), j.chars().rev().take(30).collect::<String>().chars().rev().collect::<String>(), ja)); }
+                    }
+                    out.nontrivial(&op);
+                    let _ = a;
+                }
+            }
             _ => panic!("unknown search generator"),
         }
     }
